@@ -374,7 +374,7 @@ class HybridClass(metaclass=MetaHybridClass):
                 # attributes are looked up by their (possibly renamed) name
                 pyname = obj._rename.get(field.name, field.name)
                 defaults[pyname] = field.get_default()
-            except (TypeError, ValueError):
+            except (TypeError, ValueError, IndexError):
                 # The above can fail with different error types
                 # if a field type is dynamic.
                 pass
